@@ -212,6 +212,10 @@ func decodeToIEDataType(dataType IEDataType, val interface{}) (interface{}, erro
 // DecodeAndCreateInfoElementWithValue takes in the info element and its value in bytes, and
 // returns appropriate InfoElementWithValue.
 func DecodeAndCreateInfoElementWithValue(element *InfoElement, value []byte) (InfoElementWithValue, error) {
+	// Values of the fixed-size data types are read at the full size of the type.
+	if typeLen, ok := InfoElementLength[element.DataType]; ok && value != nil && typeLen != VariableLength && len(value) < int(typeLen) {
+		return nil, fmt.Errorf("value of element %s has %d bytes: the full length of its data type (%d) is needed", element.Name, len(value), typeLen)
+	}
 	switch element.DataType {
 	case OctetArray:
 		var val []byte
